@@ -234,6 +234,11 @@ func Gen(profile string, seed uint64) (*Config, Plan) {
 	if cfg.HeartbeatMs < 5 {
 		cfg.HeartbeatMs = 5
 	}
+	// A disk whose fsync takes longer than the interval between heartbeats cannot keep up with
+	// the heartbeats alone (every AppendEntries syncs): that is overload, not a schedule.
+	if max := cfg.HeartbeatMs * 1000 / 4; cfg.SyncLatencyUs > max {
+		cfg.SyncLatencyUs = max
+	}
 
 	ids := make([]string, cfg.Voters+cfg.NonVoters)
 	for i := range ids {
